@@ -20,7 +20,7 @@ import (
 func TestC06(t *testing.T) {
 	V.Rule("lab: requests with 0-6 existing Via entries (now and then, below the sender's, a well-formed one this proxy cannot decode - IPv6 reference, blanks around the slashes or the colon - alone on its line or sharing it) and 0-4 Record-Route entries in any line layout and at any position among the other headers, over the three request paths (backend, Route, static route), must-record-route absent/true/false per listen entry, UDP and TCP ingress, next hop learned through the receiving listener, learned through another listener (an earlier request came from that host), or never learned. Oracle: Via list = [SIP/2.0/<listener transport> addr:port;branch=z9hG4bK+a generated part, never seen before in the run] + input iff destination is a backend or a learned hop (else = input); Record-Route list = [<sip:addr:port;lr>] + input iff a Via was pushed and (input has Record-Route or must-record-route), else = input. Hops known only from the message being routed, or written as a name that was never learned while its address was, are don't-cares; a hop known by name only (the name listed in a Via, its address never seen: learned-by-name) is a learned hop. A fault history (backend-outage): in-dialog requests before, during and after an outage of the TCP backend their dialog is pinned to - whatever arrives at any backend carries exactly one Via and at most one Record-Route entry of the listener. Branch freshness over every request of the run plus a dedicated run of 12000 (thorough: 20000) relayed requests. non-trivial = >= 2 existing Via entries in >= 2 lines, or >= 1 existing Record-Route, or the not-learned / other-listener variants; distinct by message")
 	V.Assume("branch freshness is a probabilistic oracle: 48 random bits, P(collision among 20000) < 1e-6")
-	V.Require("a hop known by name only (listed in a Via; its address never seen)", "requests of a dialog whose pinned tcp backend goes down and comes back", "a learned hop still known after thousands of other hosts were learned", "an existing Via entry the proxy cannot decode, sharing its line with decodable ones", "an unrelated TCP connection ended before the request", "via pushed", "no via (hop not learned)", "via names another listener", "rr added", "rr not added (policy)", "existing rr kept", "path:backend", "path:route", "path:static", ">=2 vias in >=2 lines")
+	V.Require("a request with the top Via of the one before it gets a branch of its own", "a hop known by name only (listed in a Via; its address never seen)", "requests of a dialog whose pinned tcp backend goes down and comes back", "a learned hop still known after thousands of other hosts were learned", "an existing Via entry the proxy cannot decode, sharing its line with decodable ones", "an unrelated TCP connection ended before the request", "via pushed", "no via (hop not learned)", "via names another listener", "rr added", "rr not added (policy)", "existing rr kept", "path:backend", "path:route", "path:static", ">=2 vias in >=2 lines")
 	vars := []stdVariant{
 		{MustRR: [3]string{"", "true", "false"}, NoReceived: [3]string{"", "", "true"}},
 		{Keep: "on", MustRR: [3]string{"true", "", ""}},
@@ -289,9 +289,20 @@ func TestC06(t *testing.T) {
 		l := s.in.cfg.Listens[0]
 		s.in.hub.drain()
 		dup := ""
+		prev := ""
 		for i := 0; i < n && dup == ""; i++ {
 			id := s.nextID("br-")
-			msg := fmt.Sprintf("OPTIONS sip:svc.test SIP/2.0\r\nVia: SIP/2.0/UDP %s:5060;branch=z9hG4bK%s\r\nFrom: <sip:a@b>;tag=1\r\nTo: <sip:svc.test>\r\nCall-ID: %s\r\nCSeq: 1 OPTIONS\r\nContent-Length: 0\r\n\r\n", ua.ip, id, id)
+			method := "OPTIONS"
+			// every seventh request arrives with the top Via (sent-by and branch) and
+			// the Call-ID of the one before it - the same request sent again, or the
+			// CANCEL / ACK that goes with it: it is handed on with a branch of its own
+			if i%7 == 3 && prev != "" {
+				id = prev
+				method = []string{"OPTIONS", "CANCEL", "ACK"}[(i/7)%3]
+				V.Class("a request with the top Via of the one before it gets a branch of its own")
+			}
+			prev = id
+			msg := fmt.Sprintf("%s sip:svc.test SIP/2.0\r\nVia: SIP/2.0/UDP %s:5060;branch=z9hG4bK%s\r\nFrom: <sip:a@b>;tag=1\r\nTo: <sip:svc.test>\r\nCall-ID: %s\r\nCSeq: 1 %s\r\nContent-Length: 0\r\n\r\n", method, ua.ip, id, id, method)
 			if err := ua.sendUDP(l.Addr, l.UDPPort, []byte(msg)); err != nil {
 				V.HarnessError(t, "send: %v", err)
 			}
